@@ -226,9 +226,9 @@ def conv_transpose(x, k, b, strides, padding, transpose_kernel, nd, kdil=None):
 
 def pool(x, op, window, strides, padding, count_include_pad):
   nd = len(window)
-  single = x.ndim == nd + 1
-  if single:
-    x = x[None]
+  lead = x.shape[:x.ndim - nd - 1]          # any number of batch dimensions, none included
+  single = True
+  x = x.reshape((-1,) + x.shape[x.ndim - nd - 1:])
   sizes = x.shape[1:1 + nd]
   pads = _pads(padding, sizes, list(window), strides, [1] * nd, window, nd)
   outs = [(n + lo + hi - w) // s + 1 for n, (lo, hi, _), w, s in zip(sizes, pads, window, strides)]
@@ -247,7 +247,7 @@ def pool(x, op, window, strides, padding, count_include_pad):
           y[(n,) + o + (c,)] = max(vals) if vals else -np.inf
         else:
           y[(n,) + o + (c,)] = min(vals) if vals else np.inf
-  return y[0] if single else y
+  return y.reshape(lead + y.shape[1:])
 
 
 def _axes(a, ndim):
